@@ -33,15 +33,13 @@ var viewIface = reflect.TypeOf((*view.View)(nil)).Elem()
 var errIface = reflect.TypeOf((*error)(nil)).Elem()
 
 // callConv calls obj.<name>() or obj.<name>(spec) and returns the first result if it has the wanted shape.
-func callConv(obj reflect.Value, name string, spec *common.Spec) (res reflect.Value, ok bool) {
-	defer func() {
-		if r := recover(); r != nil {
-			ok = false
-		}
-	}()
+// why: "" (ok), "absent" (no such method, or a signature this harness does not drive), "panic" (the method exists and
+// panicked), "error" (it returned a non-nil error). A method that exists but panics or fails on a struct that was
+// decoded from valid bytes is reported on an `st` line, never skipped.
+func callConv(obj reflect.Value, name string, spec *common.Spec, limit uint64) (res reflect.Value, ok bool, why string) {
 	m := obj.MethodByName(name)
 	if !m.IsValid() {
-		return reflect.Value{}, false
+		return reflect.Value{}, false, "absent"
 	}
 	mt := m.Type()
 	var args []reflect.Value
@@ -49,19 +47,35 @@ func callConv(obj reflect.Value, name string, spec *common.Spec) (res reflect.Va
 	case mt.NumIn() == 0:
 	case mt.NumIn() == 1 && mt.In(0) == specType:
 		args = []reflect.Value{reflect.ValueOf(spec)}
+	case mt.NumIn() == 1 && mt.In(0).Kind() == reflect.Uint64 && limit != 0:
+		// `Balances.View(limit uint64)`: the list limit of the type's schema
+		args = []reflect.Value{reflect.ValueOf(limit)}
 	default:
-		return reflect.Value{}, false
+		return reflect.Value{}, false, "absent"
 	}
 	if mt.NumOut() == 0 || mt.NumOut() > 2 {
-		return reflect.Value{}, false
+		return reflect.Value{}, false, "absent"
 	}
-	out := m.Call(args)
-	if len(out) == 2 {
-		if !mt.Out(1).Implements(errIface) || !out[1].IsNil() {
-			return reflect.Value{}, false
+	if mt.NumOut() == 2 && !mt.Out(1).Implements(errIface) {
+		return reflect.Value{}, false, "absent"
+	}
+	defer func() {
+		if r := recover(); r != nil {
+			res, ok, why = reflect.Value{}, false, "panic"
 		}
+	}()
+	out := m.Call(args)
+	if len(out) == 2 && !out[1].IsNil() {
+		return reflect.Value{}, false, "error"
 	}
-	return out[0], true
+	return out[0], true, ""
+}
+
+func listLimit(t *Ty) uint64 {
+	if t != nil && t.Kind == KList {
+		return t.N
+	}
+	return 0
 }
 
 // scribble overwrites, in place, every piece of memory reachable from v without reallocating anything.
@@ -147,7 +161,15 @@ func genAliasing(o hreg.Opts, w *bufio.Writer, rng *rand.Rand, cfgs []preset) er
 				so := wrap(spec, obj)
 				if so != nil {
 					if okd, unread := decodeAll(so, b); okd && unread == 0 {
-						if res, ok := callConv(reflect.ValueOf(obj), "View", spec); ok && res.Type().Implements(viewIface) && !res.IsNil() {
+						res, ok, why := callConv(reflect.ValueOf(obj), "View", spec, listLimit(t))
+						if why == "panic" || why == "error" || (ok && res.Type().Implements(viewIface) && res.IsNil()) {
+							// the struct was decoded from valid bytes: its tree form must exist
+							if why == "" {
+								why = "nil"
+							}
+							o.Stats.Add("alias", "View-"+why)
+							fmt.Fprintf(w, "st view-of-struct!%s %s %s view-%s %s\n", why, e.Name, p.tok, why, hexOrDash(b))
+						} else if ok && res.Type().Implements(viewIface) {
 							v := res.Interface().(view.View)
 							// the converted view must be the tree of the struct's own encoding: reported root of s.View()
 							// against the struct's bytes (judged by the Lean htr), not only against the view's own bytes
@@ -161,7 +183,11 @@ func genAliasing(o hreg.Opts, w *bufio.Writer, rng *rand.Rand, cfgs []preset) er
 							}
 							// view -> struct: the typed view's Raw() result is scribbled over; the view must not change
 							if _, ser2, ok := viewState(v); ok {
-								if raw, ok := callConv(res, "Raw", spec); ok {
+								raw, ok, rwhy := callConv(res, "Raw", spec, 0)
+								if rwhy == "panic" || rwhy == "error" {
+									o.Stats.Add("alias", "Raw-"+rwhy)
+									fmt.Fprintf(w, "st raw-of-view!%s %s %s raw-%s %s\n", rwhy, e.Name, p.tok, rwhy, hexOrDash(ser2))
+								} else if ok {
 									if raw.Kind() != reflect.Ptr {
 										// returned by value: a copy shares the backing arrays of its slices
 										cp := reflect.New(raw.Type())
@@ -176,6 +202,7 @@ func genAliasing(o hreg.Opts, w *bufio.Writer, rng *rand.Rand, cfgs []preset) er
 							}
 						} else {
 							o.Stats.Add("alias", "no-View-method")
+							o.Stats.Add("alias-no-View-method", e.Name) // the struct type has no View() / View(spec) method at all
 						}
 					}
 				}
